@@ -24,6 +24,8 @@ AffDef(e)  == e.affobs.adj =
                        AffineSeq(e.t, e.aff.tm[1], e.aff.ta * e.aff.tm[2]), e.mv)
 \* metamorphic relations between the recorded observations themselves
 AffineInv(e)    == e.affobs.adj = e.obs.adj
+\* a change of the units of values and times by (extreme) powers of two changes nothing
+UnitInv(e)      == e.unitexc = "" /\ e.unitadj = e.obs.adj
 TimeReversal(e) == e.rev.adj = MirrorMat(e.obs.adj)
 
 DegSplit(o) == LET n == Len(o.adj) IN \A k \in 1..n :
@@ -71,6 +73,7 @@ Verdict(e) ==
   ELSE IF ~RevDef(e) THEN R("AdjDef", "visibility_relations(reversed)", e)
   ELSE IF ~AffDef(e) THEN R("AdjDef", "visibility_relations(affine)", e)
   ELSE IF ~AffineInv(e) THEN R("AffineInv", "adjacency", e)
+  ELSE IF ~UnitInv(e) THEN R("AffineInv", "adjacency(units 2^-90 / 2^-70 or 2^70 / 2^60)" \o e.unitexc, e)
   ELSE IF ~TimeReversal(e) THEN R("TimeReversal", "adjacency", e)
   ELSE IF e.obs.m2 # e.obs.m \/ e.rev.m2 # e.rev.m \/ e.affobs.m2 # e.affobs.m
        THEN R("Repeatable", JoinSet({nm \in DOMAIN e.obs.m : e.obs.m2[nm] # e.obs.m[nm] \/ e.rev.m2[nm] # e.rev.m[nm]
